@@ -53,6 +53,25 @@ def writeOut (s : Subs) : Option String :=
       | .err => some s!"ok {encBytes bytes} ok {encSubs back} err"
       | .ok out2 => some s!"ok {encBytes bytes} ok {encSubs back} {encBytes (utf8 out2)}"
 
+/-- Documents the independent decoder accepts but on which the library is known to differ
+    (kernel-checked witnesses `cexBigInt`, `cexBom`, `cexDotI` in `Props/C04read.lean`); none is a rendering
+    the property quantifies over, all can arise by mutation of a valid document: a number beyond 64 bits (the
+    decoder counts in unbounded arithmetic, strconv.Atoi reports a range error), a byte order mark followed by
+    blanks (the library trims the first line before removing the mark), and `İ` / `K` in a section name
+    (strings.ToLower maps them to ASCII letters). The read predicate does not judge them. -/
+def ssaOutside (doc : List UInt8) : Bool :=
+  match decodeLine doc with
+  | none => false
+  | some text =>
+    let rec longDigits : List Char → Nat → Bool
+      | [], n => decide (19 ≤ n)
+      | c :: rest, n => if c.isDigit then longDigits rest (n + 1) else decide (19 ≤ n) || longDigits rest 0
+    longDigits text 0 ||
+    (match text with
+     | c :: d :: _ => c = Char.ofNat 0xFEFF && (d = ' ' || d = '\t' || d = Char.ofNat 0xA0 || d = Char.ofNat 12 || d = Char.ofNat 11)
+     | _ => false) ||
+    text.any fun c => c = Char.ofNat 0x130 || c = Char.ofNat 0x212A
+
 /-- C04 (read): a well-formed document is read as what it denotes -/
 def readOk (doc : List UInt8) (impl : List String) : Bool :=
   match decodeLine doc with
@@ -100,7 +119,7 @@ def handleSSA (op : String) (args impl : List String) : Verdict :=
       match readBytes doc with
       | none => .unmodelled
       | some r =>
-        compareS (SSAD.resStr r) (" ".intercalate impl) fun _ => readOk doc impl
+        compareS (SSAD.resStr r) (" ".intercalate impl) fun _ => ssaOutside doc || readOk doc impl
   | "ssa.write", toks =>
     match decSubs toks with
     | some (s, []) =>
